@@ -535,7 +535,59 @@ def w_units(ctx, rng, i):
     ctx.count_case(("units", fam, d, type(a).__name__, type(b).__name__), nontrivial=True)
 
 
+def w_projections(ctx, rng, i):
+    """Compositions through a step that changes the dimensionality (a camera projection 3D -> 2D, an embedding 2D -> 3D held as a
+    plain (n_out + 1) x (n_in + 1) Homogeneous): legal whenever the output space of the first is the input space of the second."""
+    import menpo.transform as mt
+    d = 2 + i % 2
+    P, _ = tx.make(rng, "NonSquareHomogeneous", d)
+    dout = P.h_matrix.shape[0] - 1
+    partner_kinds = ["Affine", "Translation", "UniformScale", "Rotation", "Similarity", "NonUniformScale", "Homogeneous"]
+    A, _ = tx.make(rng, partner_kinds[(i // 2) % len(partner_kinds)], dout)       # lives in P's output space
+    B, _ = tx.make(rng, partner_kinds[(i // 3) % len(partner_kinds)], d)          # lives in P's input space
+    x = probe_pts(d)
+    hP, hA, hB = (np.array(v.h_matrix, dtype=float) for v in (P, A, B))
+
+    def ref(h):
+        y = np.hstack([x, np.ones((len(x), 1))]) @ h.T
+        return y[:, :-1] / y[:, -1:]
+    cases = [("P.compose_before(A)", lambda: P.compose_before(A), hA @ hP), ("A.compose_after(P)", lambda: A.compose_after(P), hA @ hP),
+             ("P.compose_after(B)", lambda: P.compose_after(B), hP @ hB), ("B.compose_before(P)", lambda: B.compose_before(P), hP @ hB)]
+
+    def inplace(recv, how, other):
+        c = recv.copy()
+        getattr(c, how)(other)
+        return c
+    cases += [("P.compose_before_inplace(A)", lambda: inplace(P, "compose_before_inplace", A), hA @ hP),
+              ("P.compose_after_inplace(B)", lambda: inplace(P, "compose_after_inplace", B), hP @ hB)]
+    for name, f, h in cases:
+        exp = ref(h)
+        if not np.isfinite(exp).all():
+            continue
+        ctx.tap("compositions_through_a_change_of_dimension", "calls")
+        try:
+            c = f()
+        except ValueError:
+            if "inplace" in name:
+                ctx.bump("inplace_composition_with_a_foreign_class_refused")
+                continue
+            ctx.fail("compose_raised", cls="Homogeneous", mech="change_of_dimension:" + name.split("(")[0] + ":ValueError")
+            continue
+        except Exception as e:
+            ctx.fail("compose_raised", cls="Homogeneous", mech="change_of_dimension:" + name.split("(")[0] + ":" + type(e).__name__, error=repr(e)[:160])
+            continue
+        ctx.tap("compositions_through_a_change_of_dimension", "checked")
+        got = np.asarray(c.apply(x.copy()), dtype=float)
+        if got.shape != exp.shape or not (tx.maxdiff(got, exp) <= 1e-8 * max(1.0, float(np.abs(exp).max()))):
+            ctx.fail("composition_law_violated", cls=type(c).__name__, mech="change_of_dimension:" + name.split("(")[0], err=tx.maxdiff(got, exp) if got.shape == exp.shape else None)
+    for v, h in ((P, hP), (A, hA), (B, hB)):
+        if tx.maxdiff(v.h_matrix, h) > 0:
+            ctx.fail("compose_modified_an_operand", cls=type(v).__name__, mech="change_of_dimension")
+    ctx.count_case(("projection", d, type(A).__name__, type(B).__name__), nontrivial=True)
+
+
 WORKLOADS = [
+    Workload("projections", w_projections, quick=300, thorough=6000),
     Workload("units", w_units, quick=800, thorough=24000),
     Workload("vector_flavour_inplace", w_vector_inplace, quick=2 * 15 * 8, thorough=2 * 15 * 200),
     Workload("pairs", w_pairs, quick=2 * (17 * 17 + 14 * 14) * 4, thorough=2 * 17 * 17 * 4 * 40),
